@@ -5,7 +5,7 @@ import os
 import time
 
 from aiomc.vloop import fresh_loop
-from asyncio_taskpool import TaskPool
+from asyncio_taskpool import SimpleTaskPool, TaskPool
 
 from . import verif_workers as vw
 from .memstream import Capture, Session, shutdown
@@ -16,6 +16,7 @@ COMMANDS = [
     "get-group-ids", "is-full", "is-locked", "lock", "unlock", "num-running", "num-cancelled", "num-ended",
     "pool-size", "until-closed",
 ]
+SIMPLE_COMMANDS = [c for c in COMMANDS if c not in ("apply", "map", "starmap", "doublestarmap")] + ["start", "stop", "stop-all", "func-name"]
 VALUES = [
     "0", "1", "-1", "x", VW + "work", VW + "notcoro", "zzz.qqq", "os.getcwd", "[1,2]", "[1,", "(1,)", "{'a':1}",
     "-h", "--help", "-n", "--num", "-g", "grp", "--", "-x", "'", '"', "éß", "-m", "-r", "--group-name", "--args", "1e3",
@@ -41,11 +42,20 @@ def check_line(line):
     loop = fresh_loop()
     rec = vw.Recorder(loop)
     vw.ACTIVE = rec
-    pool = TaskPool(pool_size=3)
-    prefailed = line.startswith("!failed! ")
-    if prefailed:
-        line = line[len("!failed! "):]
+    tags = ()
+    full_line = line
+    if line.startswith("!") and "! " in line:
+        # pool state the line is sent in: failed (holds a task that raised), simple (SimpleTaskPool), locked, closed
+        head, line = line[1:].split("! ", 1)
+        tags = tuple(head.split(","))
+    pool = SimpleTaskPool(vw.work, pool_size=3) if "simple" in tags else TaskPool(pool_size=3)
+    if "failed" in tags:
         pool.apply(vw.boom, args=(1,))
+        loop.run_idle()
+    if "locked" in tags or "closed" in tags:
+        pool.lock()
+    if "closed" in tags:
+        loop.create_task(pool.gather_and_close())
         loop.run_idle()
     with cap.active():
         s = Session(loop, pool, 80)
@@ -58,41 +68,42 @@ def check_line(line):
             loop.run_idle()
     except BaseException as e:  # SystemExit included
         shutdown(loop)
-        return [{"key": "exception escaped from the session", "line": line, "exc": repr(e)}]
+        return [{"key": "exception escaped from the session", "line": full_line, "exc": repr(e)}]
     writes = [b.decode() for b in s.take()]
-    waiting = line.strip() == "until-closed"
+    waiting = line.strip() == "until-closed" and "closed" not in tags
     if s.died():
-        out.append({"key": "session ended", "line": line, "how": s.died()})
+        out.append({"key": "session ended", "line": full_line, "how": s.died()})
     elif waiting:
         if writes:
-            out.append({"key": "until-closed answered before the pool was closed", "line": line, "reply": writes})
+            out.append({"key": "until-closed answered before the pool was closed", "line": full_line, "reply": writes})
         pool.lock()
         t = loop.create_task(pool.gather_and_close())
         with cap.active():
             loop.run_idle()
         writes = [b.decode() for b in s.take()]
         if writes != ["True\n"]:
-            out.append({"key": "until-closed not answered exactly once when the pool closed", "line": line, "reply": writes})
+            out.append({"key": "until-closed not answered exactly once when the pool closed", "line": full_line, "reply": writes})
     else:
         if len(writes) != 1:
-            out.append({"key": "not exactly one reply for a line", "line": line, "n": len(writes), "reply": writes[:3]})
+            out.append({"key": "not exactly one reply for a line", "line": full_line, "n": len(writes), "reply": writes[:3]})
         else:
             txt = writes[0]
             first = line.split(" ")[0]
-            if is_error_reply(txt) or first not in COMMANDS:
+            known = COMMANDS if "simple" not in tags else SIMPLE_COMMANDS
+            if is_error_reply(txt) or first not in known:
                 if pool_obs(pool, rec) != before:
-                    out.append({"key": "malformed line / help request altered the pool", "line": line, "reply": txt[:200]})
-                if first not in COMMANDS and not is_error_reply(txt):
-                    out.append({"key": "unknown command not answered with a message", "line": line, "reply": txt[:200]})
+                    out.append({"key": "malformed line / help request altered the pool", "line": full_line, "reply": txt[:200]})
+                if first not in known and not is_error_reply(txt):
+                    out.append({"key": "unknown command not answered with a message", "line": full_line, "reply": txt[:200]})
     if not s.died() and not line.startswith("gather-and-close"):
         with cap.active():
             s.send("num-running")
             loop.run_idle()
         o2 = [b.decode() for b in s.take()]
         if len(o2) != 1 or not o2[0].strip().isdigit():
-            out.append({"key": "session not usable after the line", "line": line, "followup": o2})
+            out.append({"key": "session not usable after the line", "line": full_line, "followup": o2})
     if cap.text():
-        out.append({"key": "server printed to stdout/stderr", "line": line, "text": cap.text()[:200]})
+        out.append({"key": "server printed to stdout/stderr", "line": full_line, "text": cap.text()[:200]})
     shutdown(loop)
     return out
 
@@ -181,6 +192,14 @@ def run(tier, seed):
     lines |= {"until-closed", " leading", "trailing ", "a  b", "apply  " + VW + "work", "\t", "apply\t-h"}
     lines |= {"!failed! " + ln for ln in ("flush", "flush -r", "gather-and-close", "gather-and-close -r", "num-ended", "cancel 0", "-h",
                                           "flush --return-exceptions", "cancel-all", "get-group-ids apply-boom-group-0")}
+    # every command alone and with one value, in a locked and in a closed pool, for both pool classes (and every
+    # SimpleTaskPool command line of <= 2 tokens in the open state)
+    for tags, cmds in (("locked", COMMANDS), ("closed", COMMANDS), ("simple", SIMPLE_COMMANDS),
+                       ("simple,locked", SIMPLE_COMMANDS), ("simple,closed", SIMPLE_COMMANDS)):
+        for c in cmds:
+            lines.add(f"!{tags}! {c}")
+            for v in VALUES + ["2", "[1,2] -g grp", "--group-name grp", "-m msg"]:
+                lines.add(f"!{tags}! {c} {v}")
     lines = sorted(ln for ln in lines if ln.strip())
     pairs = [(a, b) for a in NEUTRAL for b in NEUTRAL]
     viols = []
